@@ -62,7 +62,7 @@ inductive WOut (σ V : Type) where
   | next (s : σ)
   | jmp (brk : Bool) (id : Nat) (s : σ)
   | ret (v : V) (s : σ)
-  deriving Repr
+  deriving Repr, DecidableEq
 
 /-- what a loop does with the outcome of its body (WSem.execWhile): `again`
 runs the loop once more -/
@@ -134,7 +134,7 @@ inductive COut (σ V : Type) where
   | cont (s : σ)
   | goto (l : Label) (s : σ)
   | ret (v : V) (s : σ)
-  deriving Repr
+  deriving Repr, DecidableEq
 
 /-- the statements after the first top-level `l:;` of a list -/
 def findLabel (l : Label) : List CStmt → Option (List CStmt)
@@ -235,8 +235,8 @@ end
 /-- the last statement is `break` out of loop `id` -/
 def lastIsBreakTo (id : Nat) : List WStmt → Bool
   | [] => false
-  | [.jump true j] => j == id
-  | _ :: r => lastIsBreakTo id r
+  | [s] => (match s with | .jump true j => j == id | _ => false)
+  | _ :: s :: r => lastIsBreakTo id (s :: r)
 
 /-- writeStatementWhile: `n.IsWhileTrue() && !n.HasContinue() && len(body) > 0`
 and the final statement is a `break` whose target is `n` -/
